@@ -27,7 +27,9 @@ struct C01Integrity : Monitor {
 		w->probes["c01.written"]++;
 		auto it = offered.find(p);
 		bool ok = false;
-		if (it != offered.end()) for (auto &o : it->second) if (o.where != t.id) ok = true;
+		// frames shorter than tun header + IPv4 header carry no destination: where the server sends
+		// them is undefined, so only byte identity is demanded of them, not the direction
+		if (it != offered.end()) for (auto &o : it->second) if (o.where != t.id || p.size() < 24) ok = true;
 		if (ok) return;
 		char d[200];
 		snprintf(d, sizeof d, "%s wrote %zu bytes to tun that no peer offered%s: %s", t.name.c_str(), p.size(),
@@ -110,25 +112,33 @@ struct C02Delivery : Monitor {
 
 	void cmp_clean(const char *dir, std::vector<Acc> &acc, std::vector<Del> &del)
 	{
-		// delivered sequence with non-fitting accepted packets removed must equal the fitting accepted sequence
+		// Packets accepted up to D before the end of the run must have been delivered: the
+		// delivered sequence (non-fitting accepted packets removed) must START with exactly the
+		// fitting packets accepted before end-D, in order, each once; what follows may only be
+		// later-accepted packets in order, each at most once.
+		const uint64_t D = 40ull * 1000000;
+		uint64_t end = w->S.now;
 		std::set<Bytes> nofit;
 		for (auto &a : acc) if (!a.fits) nofit.insert(a.pkt);
-		std::vector<const Bytes *> want, got;
-		for (auto &a : acc) if (a.fits) want.push_back(&a.pkt);
+		std::vector<const Bytes *> all, got;
+		size_t must = 0;
+		for (auto &a : acc) if (a.fits) { all.push_back(&a.pkt); if (a.t + D <= end) must = all.size(); }
 		for (auto &d : del) if (!nofit.count(d.pkt)) got.push_back(&d.pkt);
-		size_t n = std::min(want.size(), got.size());
-		for (size_t i = 0; i < n; i++) if (*want[i] != *got[i]) {
-			char b[200]; snprintf(b, sizeof b, "%s: position %zu expected ser=%llu got ser=%llu (accepted %zu, delivered %zu)", dir, i,
-					      (unsigned long long)pkt_serial(*want[i]), (unsigned long long)pkt_serial(*got[i]), want.size(), got.size());
-			// classify: duplicate, reorder or loss
+		w->probes[std::string("c02a.must.") + dir] = (int64_t)must;
+		size_t n = std::min(all.size(), got.size());
+		for (size_t i = 0; i < n; i++) if (*all[i] != *got[i]) {
+			char b[220]; snprintf(b, sizeof b, "%s: position %zu expected ser=%llu got ser=%llu (accepted %zu, delivered %zu)", dir, i,
+					      (unsigned long long)pkt_serial(*all[i]), (unsigned long long)pkt_serial(*got[i]), all.size(), got.size());
 			bool dup = false; for (size_t j = 0; j < i; j++) if (*got[j] == *got[i]) dup = true;
 			w->S.violate("C02", dup ? "clean.duplicate" : "clean.order_or_loss", b);
 			return;
 		}
-		if (want.size() != got.size()) {
-			char b[200]; snprintf(b, sizeof b, "%s: accepted %zu fitting packets, delivered %zu; first missing/extra ser=%llu", dir, want.size(), got.size(),
-					      (unsigned long long)pkt_serial(want.size() > got.size() ? *want[n] : *got[n]));
-			w->S.violate("C02", want.size() > got.size() ? "clean.lost" : "clean.extra", b);
+		if (got.size() > all.size()) {
+			char b[200]; snprintf(b, sizeof b, "%s: accepted %zu fitting packets, delivered %zu; first extra ser=%llu", dir, all.size(), got.size(), (unsigned long long)pkt_serial(*got[n]));
+			w->S.violate("C02", "clean.extra", b);
+		} else if (got.size() < must) {
+			char b[200]; snprintf(b, sizeof b, "%s: %zu fitting packets accepted more than 40 s before the end, only %zu delivered; first missing ser=%llu", dir, must, got.size(), (unsigned long long)pkt_serial(*all[n]));
+			w->S.violate("C02", "clean.lost", b);
 		}
 	}
 
@@ -141,7 +151,13 @@ struct C02Delivery : Monitor {
 		for (auto &a : acc) if (a.t >= Tstart && a.t + D <= Tend && a.fits) want.push_back(&a);
 		n_after = want.size();
 		w->probes[std::string("c02b.accepted_after_T.") + dir] = (int64_t)n_after;
-		if (n_after < 3) { w->S.violate("C02", "recover.no_progress", std::string(dir) + ": fewer than 3 packets accepted after the recovery bound although traffic was offered"); return; }
+		if (n_after < 3) {
+			size_t any = 0;
+			for (auto &a : acc) if (a.t >= Tstart && a.t + D <= Tend) any++;
+			if (any >= 3) { w->probes["c02b.inconclusive_nofit"]++; return; }   // accepted but beyond 16 fragments: scenario precondition, not a wedge
+			w->S.violate("C02", "recover.no_progress", std::string(dir) + ": fewer than 3 packets accepted after the recovery bound although traffic was offered every period");
+			return;
+		}
 		size_t di = 0;
 		for (auto *a : want) {
 			// find its deliveries
